@@ -15,6 +15,7 @@ EXPLANATION = (
     "write the sequence counter; the server remembers the request's flags/seq/serializer before anything in the guarded region can fail. "
     'Also decided: at most one reply per request and a failed receive leaves handleRequest; the 6-byte prefix is read and validated before the rest of the header; a missing CommunicationError handler in _pyroInvoke is a violation. '
     'Also decided (round 7): A _RemoteMethod (which captures the retry budget) is built per access and returned or called, never stored. '
+    'Also decided (round 8): The retry budget is stored exactly as given (0 is a setting); PYRO_* environment settings are stored as converted, not through a truthiness fallback. '
     "Not decided: execution counts under fault scripts, what the transport delivers."
 )
 
@@ -402,6 +403,16 @@ def run(ctx, R, tier):
     R.check(ok, "C03-R6", "_RemoteMethod.__call__|reraise-last", "the error is re-raised on the last attempt", rm.loc(),
             "the last attempt's error is not re-raised under `attempt >= max_retries`: a failed call would return None")
 
+    from .common import config_env_value_stored_as_converted
+    config_env_value_stored_as_converted(ctx, R, "C03-R6", "MAX_RETRIES=0 (no retries) is a setting of this kind")
+    # the budget a _RemoteMethod works with is the number it was given: 0 is a legal value ("do not retry"), so it is stored as it is - not through `x or default`,
+    # a conditional on its truthiness or any other expression that maps 0 to something else
+    rmi = ctx.fn("Pyro5.client._RemoteMethod.__init__")
+    sts = [st for st, t, k in stores_in(rmi.node) if k == "assign" and isinstance(t, ast.Attribute) and t.attr.endswith("__max_retries")]
+    okb = len(sts) == 1 and isinstance(sts[0].value, ast.Name) and sts[0].value.id in rmi.params
+    R.check(okb, "C03-R6", "_RemoteMethod.__init__|budget-stored-as-given", "the retry budget is stored exactly as passed in (0 means no retry)", rmi.loc(sts[0]) if sts else rmi.loc(),
+            "`%s`: a proxy whose _pyroMaxRetries is 0 gets another budget, so a call whose reply was lost is sent - and executed - again although retries were switched off"
+            % (unparse(sts[0]) if sts else "no store of the budget"))
     # the retry budget is the proxy's current one: a _RemoteMethod captures _pyroMaxRetries when it is built, so it must be built per attribute access and
     # handed out, never remembered (in the proxy's __dict__, an attribute, a cache) where a later change of the setting would not reach it
     n_ctor = 0
